@@ -471,7 +471,8 @@ class Interp:
                             recs[st.targets[0].id] = ([x.value for x in spec.elts], {}, None)
                         elif isinstance(spec, ast.Constant) and isinstance(spec.value, str):
                             recs[st.targets[0].id] = (spec.value.replace(",", " ").split(), {}, None)
-                    if isinstance(st, ast.ClassDef) and any("dataclass" in norm(d) for d in st.decorator_list) \
+                    if isinstance(st, ast.ClassDef) and (any("dataclass" in norm(d) for d in st.decorator_list) or any(
+                            norm(b_).split(".")[-1] == "NamedTuple" for b_ in st.bases)) \
                             and st.name not in self.pm.classes_in_hierarchies():
                         names, dflts = [], {}
                         for b in st.body:
@@ -1213,6 +1214,16 @@ class Interp:
                 outs.append(self.inline(cn, owner, m, b.is_self, args, kw, cx, e))
             return join(outs)
         if b.k == "class":
+            # ClassName.method(…): a static / class method of a class of the package runs as that method
+            outs = []
+            for cn in sorted(b.cls or ()):
+                if cn in self.pm.classes:
+                    owner, m = self.pm.find_method(cn, name)
+                    decs = {norm(d) for d in m.decorator_list} if m is not None else set()
+                    if m is not None and decs & {"staticmethod", "classmethod"}:
+                        outs.append(self.inline(cn, owner, m, False, args, kw, cx, e))
+            if outs:
+                return join(outs)
             return raw(alld, deg={})
         return raw(b.deps | alld, deg={})
 
